@@ -12,6 +12,7 @@ import (
 	"runtime/debug"
 	"sort"
 	"strings"
+	"sync"
 	"time"
 
 	"github.com/alicebob/miniredis/v2"
@@ -162,6 +163,7 @@ type World struct {
 	Filters []*FilterRT
 	Rep     *Replica
 	Lean    bool // no spying / recording (race build)
+	mu      sync.Mutex
 
 	faults      []Fault
 	siteCount   map[string]int
@@ -259,23 +261,39 @@ func (w *World) addSecret(kind, v string) {
 	if v == "" || w.Lean {
 		return
 	}
+	w.mu.Lock()
 	w.secrets[v] = kind
+	w.mu.Unlock()
 }
 
-func (w *World) countFault(kind string) { w.FaultsFired[kind]++ }
-func (w *World) probe(name string)      { w.Probes[name]++ }
+// The counters below are also reached from IdP handler goroutines that background refreshers
+// (jwk.Cache) may wake at the same fake instant, so they are guarded. (Not used in the race build.)
+func (w *World) countFault(kind string) {
+	w.mu.Lock()
+	w.FaultsFired[kind]++
+	w.mu.Unlock()
+}
+func (w *World) probe(name string) {
+	w.mu.Lock()
+	w.Probes[name]++
+	w.mu.Unlock()
+}
 func (w *World) violate(prop, sig, detail string) {
+	w.mu.Lock()
 	if len(w.Viol) < 20 {
 		w.Viol = append(w.Viol, Violation{prop, sig, detail})
 	}
+	w.mu.Unlock()
 }
 func (w *World) logf(format string, a ...any) {
 	if w.Lean {
 		return
 	}
+	w.mu.Lock()
 	if len(w.evlog) < 400 {
 		w.evlog = append(w.evlog, fmt.Sprintf(format, a...))
 	}
+	w.mu.Unlock()
 }
 
 // faultAt counts a seam call and returns the fault kind scheduled for it ("" = none).
@@ -283,6 +301,8 @@ func (w *World) faultAt(site string) string {
 	if w.Lean {
 		return ""
 	}
+	w.mu.Lock()
+	defer w.mu.Unlock()
 	w.siteCount[site]++
 	n := w.siteCount[site]
 	w.sites = append(w.sites, site)
@@ -305,8 +325,14 @@ func (w *World) taskID() int {
 }
 
 func (w *World) noteTokenReq(p *IdP, tr *TokenReq) {
-	if c := w.active[tr.Task]; c != nil {
+	w.mu.Lock()
+	c := w.active[tr.Task]
+	w.mu.Unlock()
+	if c != nil {
 		c.TokenReqs = append(c.TokenReqs, tr)
+		if c.Filter >= 0 && w.Filters[c.Filter].IdP != p {
+			w.violate("C18", "token-request-sent-to-another-filters-provider", fmt.Sprintf("check #%d is judged by filter %s but its token request went to provider %s", c.N, w.Filters[c.Filter].Spec.Chain, p.Name))
+		}
 	}
 }
 
@@ -876,9 +902,12 @@ func (w *World) Check(browser int, label, scheme, host, path string, hdr map[str
 		rec.Task = task.ID
 		w.active[task.ID] = rec
 	}
-	rec.Filter, rec.Subject = w.modelSubject(path, lowerKeys(hdr))
+	rec.Filter, rec.Subject = w.modelSubject(path, lowerKeys(mergeAuthority(hdr, host)))
 	if rec.Filter >= 0 {
 		rec.SID = cookieValue(hdr["cookie"], w.Filters[rec.Filter].Spec.CookieName())
+		if sm := w.sess(rec.SID); sm != nil && sm.Filter != rec.Filter {
+			w.probe("foreign-session-presented")
+		}
 		if rec.SID != "" {
 			rec.Before = w.Peek(rec.Filter, rec.SID)
 			w.presented[rec.SID] = true
@@ -934,6 +963,14 @@ func (w *World) CheckRaw(label string, req *envoy.CheckRequest) *CheckRec {
 	}
 	w.probe("raw-requests")
 	return rec
+}
+
+func mergeAuthority(hdr map[string]string, host string) map[string]string {
+	o := map[string]string{":authority": host}
+	for k, v := range hdr {
+		o[k] = v
+	}
+	return o
 }
 
 func lowerKeys(m map[string]string) map[string]string {
